@@ -182,7 +182,9 @@ def _late_case(case, ctx):
 
 OV_CONTENTS = [[{"hex": "00" * 7}, {"hex": "ff" * 7}, {"hex": "0a0a41"}],                       # same length
                [{"pat": "ab", "n": 8192 + 3}, {"hex": "cd"}, {"pat": "0a", "n": 300}],            # multi-buffer vs tiny, many lines
-               [{"pat": "6f0a", "n": 70000}, {"pat": "70", "n": 65536}, {"hex": ""}]]            # around 64 KiB
+               # around 64 KiB (lines of 1 KiB: the store hashes an object line by line, and with read boundaries every line is two
+               # scheduling points - 35 000 two-byte lines made one execution 70 000 steps long and the enumeration endless)
+               [{"pat": "6f" * 1023 + "0a", "n": 70000}, {"pat": "70", "n": 65536}, {"hex": ""}]]
 
 
 def _overlap_cases(tier):
